@@ -30,13 +30,12 @@ def step(rnd, pool, shadow, log):
             b = rnd.choice(names)
             pool[new], shadow[new] = A + pool[b], sa + shadow[b]
         elif op in ('setitem', 'setitem-empty'):
-            b = rnd.choice(names)
-            if b == a:
-                return None
+            b = rnd.choice(names)      # b may be a itself: b[i:j] = b has the list semantics l[i:j] = l
             s = rnd.randint(0, n)
             e = s if op == 'setitem-empty' else rnd.randint(s, n)
+            vb = shadow[b]
             A[s:e] = pool[b]
-            shadow[a] = sa[:s] + shadow[b] + sa[e:]
+            shadow[a] = sa[:s] + vb + sa[e:]
         elif op == 'pad-inplace':
             A.pad(rnd.choice([L, R]), inplace=True)
         elif op == 'pad-copy':
@@ -90,6 +89,15 @@ def step(rnd, pool, shadow, log):
     for k, v in pool.items():
         if bits_of(v) != shadow[k] or v.length != len(shadow[k]) or not canonical(v):
             return 'after %s on %s: buffer %s is %s:%d:%s, should denote %r' % (op, a, k, v.content.hex(), v.length, side_char(v.padding), shadow[k])
+    # every live buffer (result of whatever sequence of operations) is usable as a key: it hashes like a fresh buffer with the same bits
+    if rnd.random() < 0.3:
+        for k, v in pool.items():
+            try:
+                ok = hash(v) == hash(mk(shadow[k], rnd.choice([L, R])))
+            except Exception as e:  # noqa: BLE001
+                return 'after %s on %s: hash(%s) raised %s: %s (content is a %s)' % (op, a, k, type(e).__name__, str(e)[:60], type(v.content).__name__)
+            if not ok:
+                return 'after %s on %s: buffer %s (%r) does not hash like an equal fresh buffer' % (op, a, k, shadow[k])
     return None
 
 
